@@ -1,4 +1,75 @@
+/-
+C10 — property theorems (statements fixed by the architect; do not weaken).  PARTIAL: only the discrete /
+algebraic skeleton is decided here (see the header of Model/Crop.lean).  `Gen.Crop.extrapolates` is GENERATED;
+it may be evaluated ONLY in `cubic_extrapolates` (by `rfl`).
+Helper lemmas: PeroVerif/Lemmas/Crop.lean (may import single Mathlib modules, e.g. Mathlib.Data.Rat.Floor,
+Mathlib.Tactic.Linarith, Mathlib.Tactic.Ring, Mathlib.Tactic.FieldSimp).
+-/
 import PeroVerif.Model.Crop
+import PeroVerif.Lemmas.Crop
+
 namespace C10
-theorem placeholder : (1:Nat) = 1 := rfl
+open Crop
+
+/-- obligation on the generated flag -/
+theorem cubic_extrapolates : Gen.Crop.extrapolates = true := rfl
+
+/-- Rows run linearly from the ascender height above the baseline (first row) to the descender height
+below it (last row): `linspace` has `n` entries, starts at `a`, ends at `b`, constant step. -/
+theorem rows_linear (a b : Rat) (n : Nat) (hn : 2 ≤ n) :
+    (linspace a b n).length = n ∧ (linspace a b n)[0]? = some a ∧ (linspace a b n)[n - 1]? = some b ∧
+    ∀ i, i + 1 < n → ∃ x y, (linspace a b n)[i]? = some x ∧ (linspace a b n)[i + 1]? = some y ∧
+      y - x = (b - a) / ((n : Rat) - 1) := by
+  refine ⟨linspace_length a b n hn, ?_, ?_, ?_⟩
+  · rw [linspace_get a b n hn 0 (by omega)]; simp
+  · rw [linspace_get a b n hn (n - 1) (by omega)]
+    have hne := natCast_sub_one_ne n hn
+    have hc : ((n - 1 : Nat) : Rat) = (n : Rat) - 1 := by
+      rw [Nat.cast_sub (by omega)]; simp
+    rw [hc, mul_div_assoc, div_self hne]
+    congr 1; ring
+  · intro i hi
+    refine ⟨_, _, linspace_get a b n hn i (by omega), linspace_get a b n hn (i + 1) hi, ?_⟩
+    push_cast
+    ring
+
+/-- The width is the arc length times target height over the (scaled) line height, rounded down. -/
+theorem width_formula (arc h0 h1 s : Rat) (H : Nat) (hpos : 0 < (h0 + h1) * s) (harc : 0 ≤ arc) :
+    let w := width arc h0 h1 s H
+    0 ≤ w ∧ (w : Rat) * ((h0 + h1) * s) ≤ arc * H ∧ arc * H < ((w : Rat) + 1) * ((h0 + h1) * s) :=
+  width_bounds arc h0 h1 s H hpos harc
+
+/-- Same pixels on the fast and on the general path: if the sample point lies in the box spanned by
+the floor/ceil of the extreme coordinates, sampling the sub-image at shifted coordinates equals
+sampling the page (every neighbour with non-zero weight is inside the sub-image). -/
+theorem fast_eq_full (im : Image) (xmin ymin xmax ymax : Int) (fx fy : Rat)
+    (hx : (xmin : Rat) ≤ fx ∧ fx ≤ xmax) (hy : (ymin : Rat) ≤ fy ∧ fy ≤ ymax) :
+    fastSample im xmin ymin xmax ymax fx fy = bilinear im fx fy :=
+  fast_eq im xmin ymin xmax ymax fx fy hx hy
+
+/-- Bilinear sampling is a convex combination: the value lies between the smallest and the largest
+of the four neighbours, in particular inside the page it never leaves the grey range. -/
+theorem bilinear_range (im : Image) (fx fy lo hi : Rat) (hlo : ∀ x y, lo ≤ im.at x y) (hhi : ∀ x y, im.at x y ≤ hi) :
+    lo ≤ bilinear im fx fy ∧ bilinear im fx fy ≤ hi :=
+  bilinear_bounds im fx fy lo hi hlo hhi
+
+/-- Every evaluation point of the cubic interpolant is admissible for every non-degenerate baseline
+(with the generated flag); without extrapolation there are lengths for which it is not
+(kernel-checked witness: fractional part 0.95). -/
+theorem cubic_domain_ok (L : Rat) (hL : 0 ≤ L) : cubicDomainOK L = true := by
+  have _ := hL  -- not needed once the flag is set
+  unfold cubicDomainOK
+  rw [cubic_extrapolates, Bool.true_or]
+
+theorem cubic_domain_witness : decide (cubicEvalMax (2395 / 100) ≤ 2395 / 100 + 1 / 10) = false := by
+  rw [cubicEvalMax_witness]
+  decide +kernel
+
+/-- `crop` never raises and the result always has the configured height; it is blank exactly when
+the inner computation raised. -/
+theorem crop_height (H : Nat) (inner : Option Nat) :
+    (match cropOutcome H inner with | .cropped h _ => h | .blank h => h) = H ∧
+    ((∃ h, cropOutcome H inner = .blank h) ↔ inner = none) := by
+  cases inner <;> simp [cropOutcome]
+
 end C10
